@@ -16,9 +16,10 @@ import sys
 import zlib
 
 from . import common
+from . import c17_cov
 
 PROPERTY = 'C17'
-LEAN_TARGETS = ['CpProofs.C17', 'CpProofs.C17Order', 'drv_c17']
+LEAN_TARGETS = ['CpProofs.C17', 'CpProofs.C17Order', 'CpProofs.C17Mime', 'drv_c17']
 DRIVER = 'drv_c17'
 THEOREMS = [
     'CpProofs.C17.tables_pinned',
@@ -65,6 +66,25 @@ THEOREMS = [
     'CpProofs.C17.sortAsc_stable',
     'CpProofs.C17.acceptElements_sorted_full',
     'CpProofs.C17.splitHeader_noQuote',
+    # eligibility, Vary, Content-Type rewrite, both tools, member header (C17Mime.lean)
+    'CpProofs.C17.join_split',
+    'CpProofs.C17.split_two',
+    'CpProofs.C17.split_of_two',
+    'CpProofs.C17.mimeMatch_yes_sound',
+    'CpProofs.C17.mimeMatch_no_sound',
+    'CpProofs.C17.C17_compress_only_eligible',
+    'CpProofs.C17.setVary_keeps',
+    'CpProofs.C17.C17_vary_always',
+    'CpProofs.C17.setP_other',
+    'CpProofs.C17.setP_keys',
+    'CpProofs.C17.C17_encode_only_text',
+    'CpProofs.C17.C17_charset_rewrite_frame',
+    'CpProofs.C17.ctHead_str',
+    'CpProofs.C17.C17_gzip_wraps_encoded',
+    'CpProofs.C17.tools_order',
+    'CpProofs.C17.C17_gzip_no_optional_fields',
+    'CpProofs.C17.C17_gzip_roundtrip_full',
+    'CpProofs.C17.header_table_live',
 ]
 LEVEL = 'proof'
 TECHNIQUE = ('Lean 4 proof over a hand model of encoding.compress / encoding.gzip / ResponseEncoder / header_elements '
@@ -127,13 +147,41 @@ def _lean_str(s):
     return '[' + ', '.join(_lean_char(c) for c in s) + ']'
 
 
+TABLE_MTIMES = (0x01020304, 2 ** 32 + 5)
+
+
+def _header_rows():
+    """the first ten bytes of what the live compress() yields, for every level and two MTIMEs (one >= 2^32);
+    a call that fails gives an empty row (the table theorem then fails to build: the proof side is broken)"""
+    from cherrypy.lib import encoding
+    rows = []
+    for level in range(0, 10):
+        for mtime in TABLE_MTIMES:
+            _FakeTime.now = mtime
+            try:
+                member = b''.join(encoding.compress(iter([b'abc']), level))
+                hdr = bytes(member[:10])
+            except Exception:
+                hdr = b''
+            rows.append((level, mtime, hdr))
+    return rows
+
+
+def _tool_row(tool):
+    return (str(getattr(tool, '_point', '?')), int(getattr(tool, '_priority', -1)))
+
+
 def tables(ctx):
     import inspect
     _setup()
+    import cherrypy
     from cherrypy.lib import encoding, httputil
     sig = inspect.signature(encoding.gzip).parameters
+    enc_point, enc_prio = _tool_row(cherrypy.tools.encode)
+    gz_point, gz_prio = _tool_row(cherrypy.tools.gzip)
     src = [
-        '/- GENERATED by harness/c17.py from the live cherrypy modules (encoding.py, httputil.py); do not edit. -/',
+        '/- GENERATED by harness/c17.py from the live cherrypy modules (encoding.py, httputil.py, _cptools.py, '
+        '_cprequest.py); do not edit. -/',
         'namespace CpModel.Gen.C17',
         '',
         '/-- encoding._COMPRESSION_LEVEL_FAST / _BEST -/',
@@ -151,6 +199,16 @@ def tables(ctx):
         'def defaultTextOnly : Bool := %s' % ('true' if encoding.ResponseEncoder.text_only else 'false'),
         'def defaultAddCharset : Bool := %s' % ('true' if encoding.ResponseEncoder.add_charset else 'false'),
         'def defaultForcedIsNone : Bool := %s' % ('true' if encoding.ResponseEncoder.encoding is None else 'false'),
+        '/-- (level, MTIME, first ten bytes of the live compress() output) -/',
+        'def headerTable : List (Nat × Nat × List UInt8) := [',
+        ',\n'.join('  (%d, %d, [%s])' % (lv, mt, ', '.join('0x%02x' % b for b in hdr)) for lv, mt, hdr in _header_rows()),
+        ']',
+        '/-- cherrypy.tools.encode / cherrypy.tools.gzip: hook point and priority; _cprequest.hookpoints -/',
+        'def encodePoint : List Char := %s' % _lean_str(enc_point),
+        'def encodePriority : Nat := %d' % max(enc_prio, 0),
+        'def gzipPoint : List Char := %s' % _lean_str(gz_point),
+        'def gzipPriority : Nat := %d' % max(gz_prio, 0),
+        'def hookpoints : List (List Char) := [%s]' % ', '.join(_lean_str(h) for h in cherrypy._cprequest.hookpoints),
         '',
         'end CpModel.Gen.C17',
         '',
@@ -248,6 +306,26 @@ def _setup():
                 resp.headers['Content-Length'] = '7'
             chunks = c['chunks']
             kind = c['kind']
+            if kind == 'none':
+                return None
+            if kind == 'str':
+                return ''.join(chunks)
+            if kind == 'list':
+                return list(chunks)
+            return (x for x in chunks)
+
+        @cherrypy.expose
+        def both(self):
+            c = _STATE['cur']
+            resp = cherrypy.response
+            if c['ct'] is None:
+                resp.headers.pop('Content-Type', None)
+            else:
+                resp.headers['Content-Type'] = c['ct']
+            if c.get('vary') is not None:
+                resp.headers['Vary'] = c['vary']
+            chunks = c['chunks']
+            kind = c['kind']
             if kind == 'str':
                 return ''.join(chunks)
             if kind == 'list':
@@ -322,6 +400,8 @@ def run_gz(case):
             ('hooks.before_finalize.c17probe', _STATE['probe_hook'])]
     if case['kind'] == 'stream':
         conf.append(('response.stream', True))
+    if case.get('debug'):
+        conf += [('tools.gzip.debug', True), ('tools.encode.debug', True)]
     hdrs = {}
     if case['ae'] is not None:
         hdrs['HTTP_ACCEPT_ENCODING'] = case['ae']
@@ -329,6 +409,28 @@ def run_gz(case):
     obs = _call(_app(conf), '/gz', hdrs)
     obs['seen'] = _STATE['seen']
     return obs
+
+
+def run_both(case):
+    """both tools on a text body: tools.encode wraps the handler, tools.gzip runs at before_finalize"""
+    _setup()
+    _STATE['cur'] = case
+    _FakeTime.now = case.get('mtime', 0)
+    conf = [('tools.encode.on', True), ('tools.encode.text_only', case['text_only']),
+            ('tools.encode.add_charset', case['add_charset']),
+            ('tools.gzip.on', True), ('tools.gzip.compress_level', case['level']),
+            ('tools.gzip.mime_types', list(case['mimes']))]
+    if case['forced'] is not None:
+        conf.append(('tools.encode.encoding', case['forced']))
+    if case.get('debug'):
+        conf += [('tools.gzip.debug', True), ('tools.encode.debug', True)]
+    hdrs = {}
+    if case['ac'] is not None:
+        hdrs['HTTP_ACCEPT_CHARSET'] = case['ac']
+    if case['ae'] is not None:
+        hdrs['HTTP_ACCEPT_ENCODING'] = case['ae']
+    _STATE['seen'] = None
+    return _call(_app(conf), '/both', hdrs)
 
 
 def run_cs(case):
@@ -340,6 +442,8 @@ def run_cs(case):
         conf.append(('tools.encode.encoding', case['forced']))
     if case['kind'] == 'stream':
         conf.append(('response.stream', True))
+    if case.get('debug'):
+        conf.append(('tools.encode.debug', True))
     hdrs = {}
     if case['ac'] is not None:
         hdrs['HTTP_ACCEPT_CHARSET'] = case['ac']
@@ -406,6 +510,16 @@ def mime_eligible(ct, mimes):
     return False
 
 
+def gz_406_justified(els):
+    """strict elements: did the client refuse both gzip and identity?  (reading that demands least: names are
+    compared the way that excuses the 406)"""
+    ident_pos = any(n == 'identity' and q > 0 for n, q in els)
+    ident_ref = (any(n.lower() == 'identity' and q == 0 for n, q in els) or
+                 any(n == '*' and q == 0 for n, q in els)) and not ident_pos
+    gz_acc = any(n in ('gzip', 'x-gzip') and q > 0 for n, q in els)
+    return ident_ref and not gz_acc
+
+
 def oracle_gz(case, obs):
     """Property predicate for the gzip half, evaluated on what the implementation delivered."""
     bad = []
@@ -453,15 +567,9 @@ def oracle_gz(case, obs):
             bad.append(('unencoded response body differs from the handler body (%d vs %d bytes)'
                         % (len(obs['body']), len(body)), sig('gz:passthrough_modified')))
     elif st == 406:
-        if strict:
-            # reading that demands least: names are compared the way that excuses the 406
-            ident_pos = any(n == 'identity' and q > 0 for n, q in els)
-            ident_ref = (any(n.lower() == 'identity' and q == 0 for n, q in els) or
-                         any(n == '*' and q == 0 for n, q in els)) and not ident_pos
-            gz_acc = any(n in ('gzip', 'x-gzip') and q > 0 for n, q in els)
-            if not ident_ref or gz_acc:
-                bad.append(('406 although the client did not refuse both gzip and identity: Accept-Encoding=%r'
-                            % case['ae'], 'F18:gzip_406_without_refusal'))
+        if strict and not gz_406_justified(els):
+            bad.append(('406 although the client did not refuse both gzip and identity: Accept-Encoding=%r'
+                        % case['ae'], 'F18:gzip_406_without_refusal'))
     else:
         if strict:
             bad.append(('status %d for a well-formed Accept-Encoding %r' % (st, case['ae']), sig('gz:error_status')))
@@ -693,6 +801,105 @@ def oracle_cs(case, obs):
     return bad
 
 
+def oracle_both(case, obs):
+    """Both halves of the statement on one response: the gzip label is judged first, then the charset clause on the
+    bytes under the gzip layer."""
+    bad = []
+    st, h = obs['status'], obs['h']
+    els = strict_elements(case['ae'])
+    strict = els is not None
+    if obs['exc']:
+        return [('exception %s while the body was written out' % obs['exc'], 'both:stream_exception')]
+    cl = h.get('content-length')
+    if cl is not None and (len(cl) != 1 or cl[0] != str(len(obs['body']))):
+        bad.append(('Content-Length %s but %d body bytes' % (cl, len(obs['body'])), 'both:content_length'))
+    ce = h.get('content-encoding')
+    payload = obs['body']
+    if ce is not None:
+        if ce != ['gzip']:
+            bad.append(('Content-Encoding %s' % ce, 'gz:label'))
+        try:
+            payload = _gzip.decompress(obs['body'])
+        except Exception as e:
+            bad.append(('labelled gzip but gzip.decompress fails: %s: %s' % (type(e).__name__, e), 'gz:invalid_member'))
+            return bad
+        vary = ','.join(h.get('vary', []))
+        if 'accept-encoding' not in [v.strip().lower() for v in vary.split(',')]:
+            bad.append(('compressed without Vary: Accept-Encoding (Vary=%r)' % vary, 'gz:vary_missing'))
+        if strict and not any(n.lower() in ('gzip', 'x-gzip') and q > 0 for n, q in els):
+            bad.append(('compressed although the client does not accept gzip with q>0: %r' % case['ae'],
+                        'gz:compressed_unaccepted'))
+        if st == 200 and not mime_eligible(case['ct'], case['mimes']):
+            bad.append(('compressed although %r is not eligible under %r' % (case['ct'], case['mimes']),
+                        'gz:compressed_ineligible'))
+    if st not in (200, 406) and not strict:
+        return bad          # a junk Accept-Encoding surfaces as 400 / 500 from the gzip hook: not judged
+    if st == 406:
+        # either tool may answer 406; it must be justified by one of the two headers
+        why_cs = oracle_cs(case, dict(obs, body=payload, h={k: v for k, v in h.items() if k != 'content-length'}))
+        gz_ok = (not strict) or gz_406_justified(els)
+        if why_cs and not gz_ok:
+            bad.append(('406 justified by neither header: Accept-Encoding %r, Accept-Charset %r (%s)'
+                        % (case['ae'], case['ac'], why_cs[0][0]), 'both:406_unjustified'))
+        return bad
+    # the charset clause, on the bytes under the gzip layer
+    bad += oracle_cs(case, dict(obs, body=payload, h={k: v for k, v in h.items() if k != 'content-length'}))
+    return bad
+
+
+def line_both(case):
+    tbl = ['%s=%d' % (T(n), 1 if can_encode(n, eff_chunks(case)) else 0) for n in cs_candidates(case)]
+    return 'both %s %d %d %s %s %s %d %d %s %s %s' % (
+        T(case['ct']), 1 if case['add_charset'] else 0, 1 if case['text_only'] else 0, T(case['forced']),
+        T(case['ac']), L(tbl), len(eff_chunks(case)), 0, T(case['ae']), L(T(m) for m in case['mimes']),
+        T(case.get('vary')))
+
+
+def impl_both(case, obs):
+    st, h = obs['status'], obs['h']
+    if obs['exc'] or st == 500:
+        return ['fail']
+    if st == 200:
+        return ['200', (h.get('content-type') or [None])[0], 'compress' if h.get('content-encoding') else 'passthrough',
+                ','.join(h.get('vary', [])) if 'vary' in h else None,
+                ','.join(h.get('content-encoding', [])) if 'content-encoding' in h else None]
+    return [str(st)]
+
+
+def model_both(case, line):
+    f = line.split(' ')
+    if f[0] == 'noFind':
+        # the str chunks stay unencoded: tools.gzip may still answer 406 (the body is replaced by the error page);
+        # otherwise they reach compress() or the core as str -> 500
+        if not eff_chunks(case):
+            return ['skip']
+        if case['kind'] != 'gen':
+            return ['fail']     # a str / a list with str items is refused when it is assigned to response.body
+        d = f[1].split('=', 1)[1]
+        return ['skip'] if d == 'exotic' else ['406'] if d == '406' else ['fail']
+    if f[0] == 'found':
+        parts = dict(p.split('=', 1) for p in f[3:])
+        d = parts['D']
+        if d in ('compress', 'passthrough'):
+            return ['200', unT(f[2]), d, unT(parts['V']), unT(parts['CE'])]
+        if d == '406':
+            return ['406']
+        if d in ('err400', 'crash'):
+            return ['fail']
+        return ['skip']
+    if f[0] == 'fail':
+        # the encoder's error page runs through tools.gzip as well (E = what the hook decides on it)
+        e = f[2].split('=', 1)[1]
+        if f[1] == 'exotic' or e == 'exotic':
+            return ['skip']
+        if e in ('err400', 'crash'):
+            return ['fail']
+        if e == '406':
+            return ['406']
+        return {'406': ['406'], '500': ['fail'], 'err400': ['400']}.get(f[1], ['skip'])
+    return ['model:' + line[:40]]
+
+
 def cs_candidates(case):
     """names the encoder may be asked about (from the real parser), for the model's `can` table"""
     from cherrypy.lib import httputil
@@ -907,6 +1114,37 @@ def gen_body(rng, big):
     return chunks
 
 
+GRID_TYPES = ['text', 'application', 'image', 'model', 'message', 'audio']
+GRID_SUBS = ['html', 'plain', 'xml', 'svg+xml', 'atom+xml', 'x3d+xml', 'imdn+xml', 'ld+json', 'json', 'x+json', '+xml',
+             'xml+', 'x-meta+json', 'css', 'xhtml+xml']
+
+
+def gen_mime_grid(rng):
+    """(Content-Type, mime_types): media types x the documented pattern forms, the pattern's top-level type and
+    suffix independently equal to / different from the response's (never a shape that makes the matching crash)"""
+    t, sub = rng.choice(GRID_TYPES), rng.choice(GRID_SUBS)
+    ct = t + '/' + sub
+    suf = sub.split('+', 1)[1] if '+' in sub else rng.choice(['xml', 'json'])
+    pats = []
+    for _ in range(rng.choice([1, 1, 1, 2, 3])):
+        t2 = t if rng.random() < 0.5 else rng.choice(GRID_TYPES)
+        suf2 = suf if rng.random() < 0.6 else rng.choice(['xml', 'json', 'zip', ''])
+        form = rng.random()
+        if form < 0.45:
+            pats.append('%s/*+%s' % (t2, suf2))
+        elif form < 0.65:
+            pats.append('%s/*' % t2)
+        elif form < 0.8:
+            pats.append('%s/%s' % (t2, rng.choice(GRID_SUBS)))
+        elif form < 0.9:
+            pats.append('%s/%s' % (t2, sub))
+        else:
+            pats.append(rng.choice(['*/*', '*/*+' + suf, t2, '*', t2 + '/', '/*+' + suf, t2 + '/x+' + suf2]))
+    if rng.random() < 0.3:
+        ct += rng.choice(['; charset=utf-8', ';x=1', ' ; q=1', ';charset=iso-8859-1'])
+    return ct, pats
+
+
 def gen_gz_case(rng, big=False):
     chunks = gen_body(rng, big)
     kind = rng.choice(['bytes', 'list', 'list', 'gen', 'gen', 'stream', 'file'])
@@ -916,15 +1154,20 @@ def gen_gz_case(rng, big=False):
                          'gzip, deflate, br', 'identity;q=0, gzip', 'x-gzip;q=0.5', '*;q=0, gzip;q=0.1'])
     mimes = rng.choice(MIME_SETS)
     ct = rng.choice(CTS)
-    if rng.random() < 0.45:
+    r = rng.random()
+    if r < 0.40:
         ct, mimes = rng.choice(['text/html', 'text/plain']), ['text/html', 'text/plain']
+    elif r < 0.62:
+        ct, mimes = gen_mime_grid(rng)
+        if rng.random() < 0.8:
+            ae = rng.choice(['gzip', 'gzip', 'x-gzip;q=0.5', 'gzip, identity;q=0.1', 'gzip, *;q=0'])
     vary = rng.choice([None, None, None, 'Accept-Encoding', 'Cookie', 'Cookie, Accept-Encoding', 'accept-encoding',
                        'Accept-Language ,  Cookie', ',', '*', 'Accept-EncodingX'])
     mtime = rng.choice([0, 1, 1700000000, 1700000000.75, 2 ** 32 - 1, 2 ** 32, 2 ** 32 + 5, 2 ** 40 + 3,
                         rng.randint(0, 2 ** 33)])
     return {'t': 'gz', 'chunks': [c.hex() for c in chunks], 'kind': kind, 'ae': ae, 'mimes': mimes, 'ct': ct,
             'level': rng.randint(0, 9), 'vary': vary, 'cl': rng.random() < 0.3, 'cached': rng.random() < 0.03,
-            'mtime': mtime, 'enc': rng.random() < 0.15}
+            'mtime': mtime, 'enc': rng.random() < 0.15, 'debug': rng.random() < 0.06}
 
 
 CHARSETS = ['utf-8', 'utf-8', 'UTF-8', 'utf8', 'iso-8859-1', 'iso-8859-1', 'ISO-8859-1', 'latin-1', 'us-ascii',
@@ -941,6 +1184,7 @@ ALPHABETS = [
     'a\U0001f600\U0001f40d\U00010348b',
     'a\u0301e\u0308\ufeff\u200b z',
     'abc\xe9\u20ac\u0434\u03b2\u6bdb\U0001f600',
+    'ab\ud800c',          # a lone surrogate: not even the default utf-8 can represent it
 ]
 
 
@@ -973,6 +1217,8 @@ CS_CTS = ['text/html', 'text/html', 'text/plain', 'text/plain', 'text/html;chars
 def gen_cs_case(rng):
     chunks = gen_text_chunks(rng)
     kind = rng.choice(['str', 'list', 'list', 'gen', 'gen', 'stream'])
+    if not chunks and rng.random() < 0.3:
+        kind = 'none'           # the handler returns None
     ac = gen_accept(rng, CHARSETS, junk_p=0.05)
     if ac and rng.random() < 0.35:
         ac += rng.choice([', utf-8;q=0.1', ', *;q=0.1', ',utf-8;q=0.5', ', utf-16le;q=0.01', ', utf-8'])
@@ -987,7 +1233,73 @@ def gen_cs_case(rng):
     if rng.random() < 0.5:
         ct = rng.choice(['text/html', 'text/plain'])
     return {'t': 'cs', 'chunks': chunks, 'kind': kind, 'ac': ac, 'forced': forced, 'ct': ct,
-            'text_only': rng.random() < 0.8, 'add_charset': rng.random() < 0.96, 'cl': rng.random() < 0.2}
+            'text_only': rng.random() < 0.8, 'add_charset': rng.random() < 0.96, 'cl': rng.random() < 0.2,
+            'debug': rng.random() < 0.06}
+
+
+BOTH_CTS = ['text/html', 'text/html', 'text/plain', 'text/plain', 'text/html;charset=x', 'text/css', 'application/xml',
+            'application/atom+xml', 'image/svg+xml', 'text/x+xml', 'TEXT/HTML', 'text/plain; format=flowed', 'application/json']
+
+
+def gen_both_case(rng):
+    """a text body through tools.encode and tools.gzip: Accept-Charset x Accept-Encoding x media type x mime_types"""
+    c = gen_cs_case(rng)
+    while c['kind'] == 'stream':
+        c['kind'] = rng.choice(['str', 'list', 'gen'])
+    c['t'] = 'both'
+    c.pop('cl', None)
+    if rng.random() < 0.55:
+        c['ac'] = rng.choice([None, 'utf-8', '*', 'iso-8859-1, utf-8;q=0.5', 'utf-16', 'utf-16;q=0.9, utf-8;q=0.5',
+                              'iso-8859-1;q=0.9, *;q=0.1', 'us-ascii, utf-8;q=0.1', 'utf-8, iso-8859-1;q=0.5',
+                              'koi8-r, utf-8;q=0.2', 'utf-32;q=0.3, utf-16le'])
+        c['forced'] = None if rng.random() < 0.85 else c['forced']
+    ae = gen_accept(rng, CODINGS)
+    if rng.random() < 0.6:
+        ae = rng.choice(['gzip', 'gzip', 'x-gzip', 'gzip, deflate', 'gzip;q=1.0, identity; q=0.5, *;q=0', 'identity;q=0, gzip',
+                         'x-gzip;q=0.5', '*;q=0, gzip;q=0.1', 'identity', 'gzip;q=0', 'identity;q=0', 'deflate'])
+    c['ae'] = ae
+    r = rng.random()
+    if r < 0.5:
+        c['ct'], c['mimes'] = rng.choice(['text/html', 'text/plain']), ['text/html', 'text/plain']
+    elif r < 0.75:
+        c['ct'], c['mimes'] = gen_mime_grid(rng)
+        if rng.random() < 0.8:
+            c['text_only'] = False
+    else:
+        c['ct'], c['mimes'] = rng.choice(BOTH_CTS), rng.choice(MIME_SETS)
+        if not c['ct'].lower().startswith('text/') and rng.random() < 0.7:
+            c['text_only'] = False
+    if rng.random() < 0.7:
+        c['add_charset'] = True
+    c['level'] = rng.randint(0, 9)
+    c['vary'] = rng.choice([None, None, None, 'Cookie', 'Accept-Encoding', 'Accept-Charset'])
+    c['mtime'] = rng.choice([0, 1700000000, 2 ** 32 + 5, rng.randint(0, 2 ** 33)])
+    return c
+
+
+Q_JUNK = ['', ' ', '.', '-', '+', 'e5', '.e5', '1e', '1e+', '1e-', '0x10', '1,5', '1 5', '1..5', '1.5.', '--1', '+-1',
+          '1-', 'nan1', 'infi', '1f', '1d0', '½', '²', '1\u20605', 'q', '"1"', "'1'", '1;', '1e5e5', '1e5.5', '1_e5',
+          '1e5_', '_', '1__5', '0_0', '0_', '1._', '._1', '1_.', 'in f', 'na_n', '∞']
+
+
+def gen_q_case(rng):
+    r = rng.random()
+    if r < 0.7:
+        t = gen_q_float(rng)
+    elif r < 0.85:
+        t = rng.choice([q.split('=', 1)[1] if '=' in q else q for q in QS_OK + QS_ODD])
+    else:
+        t = rng.choice(Q_JUNK)
+    if rng.random() < 0.1:
+        t = rng.choice([' ', '\t', '\xa0', '  ']) + t + rng.choice(['', ' ', '\n'])
+    return {'t': 'q', 'v': t}
+
+
+# the element shapes pinned by `example`s in lean/CpProofs/C17Order.lean, replayed on the real parser on every run
+ELS_FIXED = ['a;q=0.5;level=1, b', 'a;level=1;q=0.5', 'a;x="1,2";q=0.1', 'gzip ; q = 0.5', 'gzip;\tq=0.5', 'a;q=0.5;q=0.9',
+             'gzip;q=', 'gzip;q=, identity', 'gzip;Q=0', 'a;q=0.5, b;q=0.7, c;q=0.5', 'a;q=5e-1, b;q=0.7', 'a;q=nan, b',
+             'gzip, identity', 'a;q=1e400, b;q=inf, c;q=-inf, d;q=-1e400', 'a;q=1_0, b;q=9', 'a;q="0.5", b;q=" .5 "',
+             'a;q=1e-400, b;q=0, c;q=-0']
 
 
 # ----------------------------------------------------------------------------------------------
@@ -1018,6 +1330,8 @@ def run_els(case):
         els = httputil.header_elements(name, case['v'])
     except cherrypy.HTTPError as e:
         return 'err%d' % e.status
+    except Exception as e:                    # anything else is an observation the comparison reports
+        return 'exc:%s' % type(e).__name__
     out = []
     for e in els:
         qx = None
@@ -1026,6 +1340,8 @@ def run_els(case):
                 q = e.qvalue
             except cherrypy.HTTPError:
                 q = 'bad'
+            except Exception as x:
+                q = 'exc:%s' % type(x).__name__
             try:
                 qx = q_expect(q_raw(e))
             except Exception as x:
@@ -1246,6 +1562,33 @@ def eval_case(case):
                        'cs:forced' if case['forced'] else 'cs:negotiated',
                        'cs:chunks:' + ('0' if not case['chunks'] else '1' if len(case['chunks']) == 1 else '>=2')]
         rec['nontrivial'] = bool(text)
+    elif t == 'both':
+        obs = run_both(case)
+        text = ''.join(case['chunks'])
+        rec['fails'] = oracle_both(case, obs)
+        rec['impl'] = impl_both(case, obs)
+        rec['lines'] = [line_both(case)]
+        rec['hist'] = ['both:status:%d' % obs['status'], 'both:' + (rec['impl'][2] if rec['impl'][0] == '200' else 'error'),
+                       'both:kind:' + case['kind'],
+                       'both:ae:' + ('absent' if case['ae'] is None else
+                                     'strict' if strict_elements(case['ae']) is not None else 'junk'),
+                       'both:ac:' + ('absent' if case['ac'] is None else
+                                     'strict' if strict_elements(case['ac']) is not None else 'junk')]
+        rec['nontrivial'] = bool(text) and case['ae'] not in (None, '')
+        if rec['impl'][0] == '200' and rec['impl'][2] == 'compress' and not rec['fails']:
+            plain = _gzip.decompress(obs['body'])
+            f2, rec['frame'], h2 = member_check([plain], case['level'], case.get('mtime', 0), obs['body'])
+            rec['fails'] += f2
+            rec['hist'] += h2
+    elif t == 'q':
+        try:
+            rec['impl'] = str(q_expect(case['v']))
+        except Exception as e:
+            rec['impl'] = 'unreadable:%s' % type(e).__name__
+        rec['lines'] = ['q %s' % T(case['v'])]
+        rec['hist'] = ['q:' + (rec['impl'] if rec['impl'] in ('bad', 'nan', 'inf', '-inf', 'exotic') else
+                               'zero' if rec['impl'] == '0' else 'finite')]
+        rec['nontrivial'] = True
     elif t == 'els':
         rec['impl'] = run_els(case)
         rec['lines'] = ['els %s %s' % (case['kind'], T(case['v']))]
@@ -1311,6 +1654,17 @@ def settle(ctx, recs, compare=True):
                 continue
             if tuple(m) != tuple(impl):
                 ctx.disagree(case, list(impl), list(m), 'charset decision / Content-Type differ')
+        elif t == 'both':
+            m = model_both(case, o)
+            if m[0] == 'skip':
+                ctx.count('model:exotic')
+                continue
+            if list(m) != list(impl):
+                ctx.disagree(case, list(impl), list(m), 'encode + gzip: status / Content-Type / decision / headers differ')
+        elif t == 'q':
+            m = str(model_q(o))
+            if m != impl:
+                ctx.disagree(case, impl, o, 'float() of a q text: class / value differs')
         elif t == 'els':
             d = cmp_els(case, impl, o)
             if d:
@@ -1320,13 +1674,18 @@ def settle(ctx, recs, compare=True):
                 ctx.disagree(case, impl, o, 'crc32 differs from zlib.crc32')
         elif t == 'frame':
             parts = dict(p.split('=', 1) for p in o.split(' '))
-            if parts['EQ'] != '1' or parts['GUNZIP'] != 'ok':
+            if (parts['EQ'] != '1' or parts['GUNZIP'] != 'ok' or parts.get('FULL') != 'ok' or parts.get('FLG') != '0'
+                    or parts.get('OPT') != 'none'):
                 ctx.disagree({k: v for k, v in case.items() if k != 'chunks'} | {'chunks': case['chunks'][:20]},
-                             'real member', o, 'gzip member differs from the model frame (header/trailer)')
+                             'real member', o[-120:], 'gzip member differs from the model frame (header / trailer / optional fields)')
 
 
-def gen_stream(rng, n_gz, n_cs, n_els, n_crc, n_unit, n_big):
+def gen_stream(rng, n_gz, n_cs, n_els, n_crc, n_unit, n_big, n_both=0, n_q=0):
     cases = []
+    for i in range(n_both):
+        cases.append(gen_both_case(rng))
+    for i in range(n_q):
+        cases.append(gen_q_case(rng))
     for i in range(n_gz):
         cases.append(gen_gz_case(rng, big=False))
     for i in range(n_big):
@@ -1353,11 +1712,15 @@ def _worker(args):
     seed, counts = args
     rng = random.Random(seed)
     cases = gen_stream(rng, *counts)
+    cov = c17_cov.start()
     out = []
-    for c in cases:
-        rec = eval_case(c)
-        out.append(rec)
-    return out
+    try:
+        for c in cases:
+            rec = eval_case(c)
+            out.append(rec)
+    finally:
+        c17_cov.stop()
+    return out, cov.hits()
 
 
 def corpus_cases():
@@ -1371,31 +1734,40 @@ def corpus_cases():
 
 
 def run(ctx):
-    # known findings first, then the regression corpus
-    for e in ctx.known:
-        if e.get('status') == 'known':
-            settle(ctx, [eval_case(dict(e['witness']))])
-    settle(ctx, [eval_case(dict(c)) for c in corpus_cases()])
-    virtual_size_probe(ctx, ctx.rng)
-    if ctx.quick():
-        cases = gen_stream(ctx.rng, 4000, 4000, 5000, 600, 600, 24)
-        settle(ctx, [eval_case(c) for c in cases])
-    else:
-        jobs = [(ctx.rng.getrandbits(48), (2500, 2500, 2500, 300, 300, 6)) for _ in range(80)]
-        for i in range(0, len(jobs), 16):
-            for recs in common.parallel_map(_worker, jobs[i:i + 16]):
-                settle(ctx, recs)
+    _setup()
+    cov = c17_cov.start()
+    try:
+        # known findings first, then the regression corpus
+        for e in ctx.known:
+            if e.get('status') == 'known':
+                settle(ctx, [eval_case(dict(e['witness']))])
+        settle(ctx, [eval_case(dict(c)) for c in corpus_cases()])
+        settle(ctx, [eval_case({'t': 'els', 'kind': 'A', 'v': v}) for v in ELS_FIXED])
+        virtual_size_probe(ctx, ctx.rng)
+        if ctx.quick():
+            cases = gen_stream(ctx.rng, 4000, 4000, 5000, 600, 600, 24, 2500, 3000)
+            settle(ctx, [eval_case(c) for c in cases])
+        else:
+            c17_cov.stop()              # the forked workers install their own monitor
+            jobs = [(ctx.rng.getrandbits(48), (2500, 2500, 2500, 300, 300, 6, 1500, 1500)) for _ in range(80)]
+            for i in range(0, len(jobs), 16):
+                for recs, hits in common.parallel_map(_worker, jobs[i:i + 16]):
+                    cov.add_hits(hits)
+                    settle(ctx, recs)
+    finally:
+        c17_cov.stop()
+    cov.report(ctx)
 
 
 def search(ctx, around=None):
     """Oracle-only hunt (no model): more cases of the kind that disagreed, then the general stream."""
-    kinds = {'gz': (6000, 0, 0, 0, 200, 4), 'cs': (0, 8000, 0, 0, 0, 0)}
+    kinds = {'gz': (6000, 0, 0, 0, 200, 4), 'cs': (0, 8000, 0, 0, 0, 0), 'both': (0, 0, 0, 0, 0, 0, 8000, 0)}
     t = (around or {}).get('t')
     plans = [kinds[t]] if t in kinds else []
-    plans.append((4000, 4000, 0, 0, 200, 4))
+    plans.append((4000, 4000, 0, 0, 200, 4, 3000, 0))
     for counts in plans:
         jobs = [(ctx.rng.getrandbits(48), tuple(max(0, c // 8) for c in counts)) for _ in range(8)]
-        for recs in common.parallel_map(_worker, jobs, procs=8):
+        for recs, _hits in common.parallel_map(_worker, jobs, procs=8):
             settle(ctx, recs, compare=False)
         if ctx.oracle_failures:
             return
